@@ -202,27 +202,37 @@ class Run:
 
     # ---------------------------------------------------------------- cvc5 cross-check
     def cross_check(self, limit=None):
-        """re-decide exported queries with cvc5 (binary); disagreement => inconclusive"""
+        """re-decide exported queries with cvc5 (binary); disagreement => inconclusive.
+        At most VERIF_CVC5_MAX (default 400) queries, spread evenly over the exported ones, 8 solver processes at a time."""
         import shutil, tempfile
+        from concurrent.futures import ThreadPoolExecutor
         if not shutil.which('cvc5'): self.notes.append('cvc5 binary not found; cross-check skipped'); return
+        cap = int(os.environ.get('VERIF_CVC5_MAX', '400'))
         todo = self.exported if limit is None else self.exported[:limit]
-        for name, smt, zres in todo:
+        if len(todo) > cap:
+            step = len(todo) / cap; todo = [todo[int(k * step)] for k in range(cap)]
+            self.notes.append(f'cvc5 cross-check: {cap} of {len(self.exported)} exported queries (evenly spread)')
+        def one(item):
+            name, smt, zres = item
             with tempfile.NamedTemporaryFile('w', suffix='.smt2', dir=os.path.join(VERIF, '.cache'), delete=False) as f:
                 f.write('(set-logic ALL)\n' + smt + '\n'); fn = f.name
+            t = time.time()
             try:
-                t = time.time()
                 p = subprocess.run(['cvc5', '--lang', 'smt2', '--tlimit', str(self.timeout_ms), fn], capture_output=True, text=True, timeout=self.timeout_ms / 1000 + 10)
-                self.solver_cvc5_s = getattr(self, 'solver_cvc5_s', 0.0) + time.time() - t
                 out = p.stdout.strip().split('\n')[0] if p.stdout.strip() else 'error'
                 if '(error' in p.stdout or '(error' in p.stderr: out = 'error'
             except subprocess.TimeoutExpired:
                 out = 'timeout'
             finally:
                 os.unlink(fn)
-            self.cvc5_checked += 1
-            if out in ('sat', 'unsat') and zres in ('sat', 'unsat') and out != zres:
-                self.cvc5_disagree += 1
-                self.inconclusive.append(f'z3 ({zres}) and cvc5 ({out}) disagree on "{name}"')
+            return name, zres, out, time.time() - t
+        with ThreadPoolExecutor(max_workers=8) as ex:
+            for name, zres, out, dt in ex.map(one, todo):
+                self.solver_cvc5_s = getattr(self, 'solver_cvc5_s', 0.0) + dt
+                self.cvc5_checked += 1
+                if out in ('sat', 'unsat') and zres in ('sat', 'unsat') and out != zres:
+                    self.cvc5_disagree += 1
+                    self.inconclusive.append(f'z3 ({zres}) and cvc5 ({out}) disagree on "{name}"')
 
     # ---------------------------------------------------------------- replay
     def replay_bin(self):
